@@ -32,6 +32,8 @@ def run(ctx, rep):
     typestate(ctx.prog, rep)
     implicit_tick_and_inputs(ctx.prog, rep)
     tick_boundary_conditions(ctx.prog, rep)
+    from .common import check_refusal_inventory
+    check_refusal_inventory(ctx.prog, rep, "R6-refusal-inventory", ("libtw2_teehistorian::format::",))
 
 
 def _offset_stores(body, ir):
